@@ -2,7 +2,7 @@
 import json, os, sys, time
 from .common import *
 from .engine import *
-from . import cratebuild, corpus_ctor, corpus_extra, corpus_serde, corpus_arb, verdict, corpus_verdict
+from . import cratebuild, corpus_ctor, corpus_extra, corpus_serde, corpus_arb, verdict, corpus_verdict, corpus_c05, audit
 
 ASSUME_COMMON = ["lowercase/uppercase meaning = this toolchain's str::to_lowercase/to_uppercase",
                  "NaN vs bound validators: either verdict accepted (DESIGN section 3)",
@@ -399,7 +399,104 @@ def check_c08(tier, seed):
     return finish(res)
 
 
-CHECKS = {"C08": check_c08, "C09": check_c09, "C14": check_c14, "C04": check_c04, "C10": check_c10, "C01": check_c01, "C03": check_c03, "C06": check_c06, "C07": check_c07, "C11": check_c11, "C12": check_c12, "C13": check_c13, "C16": check_c16}
+def audit_corpus(tier, seed):
+    """(modules, expects): C05 victims plus a slice of the runtime corpora, as plain declarations"""
+    modules, expects = [], {}
+    n = 0
+    for v in corpus_c05.victims(tier):
+        for vis in ("pub", "pub(crate)", ""):
+            n += 1
+            tn = "Aud%03d" % n
+            text = v.text(vis).replace("struct T", "struct " + tn).replace("T::", tn + "::").replace("= T<", "= %s<" % tn).replace("= T;", "= %s;" % tn)
+            modules.append(("m%03d" % n, text))
+            expects[tn] = {"vis": vis, "has_validation": v.has_validation, "new_unchecked": v.new_unchecked}
+    decls = [d for d in ctor_decls(tier, seed) if "nvrt::" not in d.decl_text() and not any("nvrt::" in s for s in d.support)]
+    step = max(1, len(decls) // (160 if tier == "quick" else 600))
+    for d in decls[::step]:
+        n += 1
+        sup = "\n".join(s for s in d.support if not s.startswith("fn o_"))
+        modules.append(("m%03d" % n, "use nutype::nutype;\n%s\n%s" % (sup, d.decl_text())))
+        expects[d.type_name] = {"vis": d.vis, "has_validation": d.has_validation, "new_unchecked": d.new_unchecked}
+    return modules, expects
+
+
+def check_c05(tier, seed):
+    res = Result("C05", tier, seed)
+    res.rule = ("(1) attack catalogue: 11 victim declarations (int/float/String/Vec/generic; no derives, every view trait, every trait; with/without validators; new_unchecked flag on/off) "
+                "x {pub, pub(crate)} x ~25-40 bypass attempts each (tuple/struct-literal construction, field read/write, destructuring, private __sanitize__/__validate__, hidden module "
+                "path, new/From/Into/Default where they must not exist, new_unchecked without flag / without unsafe, assignment/reborrow/mem::swap/DerefMut through Deref, mutating "
+                "Vec/String methods through auto-deref, as_mut, borrow_mut, `for x in &mut t`, into_iter on &mut) plus naming a private / pub(super) / pub(in path) newtype and its error "
+                "types from outside; every attack must be rejected by rustc (>= 1 error attributed by span) AND its positive-control twin (same function, legitimate call) must compile. "
+                "(2) expansion audit: nightly -Zunpretty=expanded of the victims and a slice of the runtime corpora parsed with syn into an event log; offline rules: private "
+                "doc(hidden) module, private field, re-exports exactly T/TError/TParseError with the declared visibility, no mutable-view impls, no &mut self methods or &mut returns, "
+                "direct constructions only in try_new (after __validate__), new (around __sanitize__), unsafe new_unchecked, Clone::clone; new_unchecked present iff flagged and unsafe; no "
+                "unsafe blocks / transmute / undocumented pub fns. A case is one (attack, victim, visibility) triple or one audited expansion module.")
+    cases = corpus_c05.build(tier, seed)
+    vc = verdict.VerdictCrate("c05-%s" % tier, cratebuild.ALL_FEATURES, extra_deps=FULL_DEPS, nshards=16)
+    try:
+        out, info = verdict.run_verdicts(vc, cases, log=log, max_rounds=10)
+    except Inconclusive as e:
+        res.inconclusive.append(str(e))
+        return finish(res)
+    by_id = {c.id: c for c in cases}
+    n_ok = 0
+    codes = {}
+    for c in cases:
+        if c.expect != "MUST_REJECT":
+            continue
+        ctrl = by_id["c" + c.id[1:]]
+        oa, oc = out[c.id], out[ctrl.id]
+        res.evaluations += 2
+        if oc["verdict"] != "accepted":
+            res.inconclusive.append("positive control %s (%s, %s) does not compile: %s" % (ctrl.id, c.rule, c.note, json.dumps(oc["errors"])[:300]))
+            continue
+        if oa["verdict"] == "accepted":
+            res.violations.append(verdict_witness(res, c, "attack compiles", "bypass-compiles:" + c.rule.split(":", 1)[1].split(":")[0] + ":" + c.note.split("/")[0]))
+            continue
+        n_ok += 1
+        res.classes.add("%s|%s" % (c.rule, c.note))
+        for e in oa["errors"]:
+            codes[str(e["code"])] = codes.get(str(e["code"]), 0) + 1
+        if len(res.samples) < 8 and n_ok % 41 == 0:
+            res.samples.append({"attack": c.rule, "victim": c.note, "program": c.body, "rustc": oa["errors"][:1], "control_compiles": True})
+    res.hist.update({"attack-rejected:" + k: v for k, v in codes.items()})
+    res.guard("attacks_rejected_with_compiling_control", n_ok, 300)
+    # ---- expansion audit
+    modules, expects = audit_corpus(tier, seed)
+    mods, err = audit.expand_and_audit("c05-audit-%s" % tier, modules, expects, cratebuild.ALL_FEATURES, log=log)
+    if err:
+        res.inconclusive.append(err[:800])
+        return finish(res)
+    audited = 0
+    for m in mods:
+        tn = m["type_name"]
+        if tn not in expects:
+            continue
+        viol, facts = audit.check_module(m, expects[tn])
+        audited += 1
+        res.evaluations += facts.get("fns", 0) + 1
+        res.classes.add("audit|" + tn)
+        for x in viol:
+            if x["signature"] == "INCONCLUSIVE":
+                res.inconclusive.append("%s: %s" % (tn, x["detail"]))
+                continue
+            v = {"decl": tn, "signature": x["signature"], "input": m["module"], "observed": x["detail"], "expected": "see rule", "detail": ""}
+            text = dict(modules).get("m%03d" % 0, None)
+            v["replay"] = write_witness(res, v, module_text=next((t for (mn, t) in modules if ("struct %s" % tn) in t), None), kind="expansion")
+            res.violations.append(v)
+        if audited == 3:
+            res.samples.append({"audited_module": m["module"], "impls": [(im["trait"], [f["name"] for f in im["fns"]]) for im in m["impls"]][:8]})
+    res.guard("expansion_modules_audited", audited, min(len(expects), 150))
+    res.guard("expansion_modules_expected", len(expects), 150)
+    res.hist["expansion-modules-audited"] = audited
+    res.declarations = audited
+    res.assumptions += ["a catalogue is a sample of all client programs; interior mutability of a user-chosen inner type is outside the property",
+                        "rustc diagnostics are attributed by primary span line; error codes are recorded, not required",
+                        "nightly -Zunpretty=expanded output is parsed by syn 2.0.66; an unparsable module is INCONCLUSIVE"]
+    return finish(res)
+
+
+CHECKS = {"C05": check_c05, "C08": check_c08, "C09": check_c09, "C14": check_c14, "C04": check_c04, "C10": check_c10, "C01": check_c01, "C03": check_c03, "C06": check_c06, "C07": check_c07, "C11": check_c11, "C12": check_c12, "C13": check_c13, "C16": check_c16}
 
 
 def run_check(prop, tier, seed):
